@@ -20,6 +20,10 @@ Kind(k) ==
     CASE k = "A1"    -> M(k, "a", "ok", <<RR("A", T1, "a1")>>, NoSoa)
       [] k = "A2"    -> M(k, "a", "ok", <<RR("CNAME", T2, ""), RR("A", T2, "a1"), RR("A", T2, "a2")>>, NoSoa)
       [] k = "Ac"    -> M(k, "a", "ok", <<RR("CNAME", T1, ""), RR("A", T2, "a3")>>, NoSoa)   \* CNAME TTL is the smallest
+      \* more than 1232 bytes (the advertised EDNS(0) size) of answer section: two addresses and ~1.5 KB of
+      \* TXT records in between, which parseMsg skips but whose TTL counts.  TCP alphabets only.
+      [] k = "Abig"  -> M(k, "a", "ok", <<RR("A", T2, "a1"), [t |-> "TXT", ttl |-> T2, ip |-> "", n |-> 1500], RR("A", T2, "a2")>>, NoSoa)
+      [] k = "Bbig"  -> M(k, "aaaa", "ok", <<[t |-> "TXT", ttl |-> T2, ip |-> "", n |-> 2400], RR("AAAA", T2, "b1")>>, NoSoa)
       [] k = "Anx"   -> M(k, "a", "nx", <<>>, TS)
       [] k = "And"   -> M(k, "a", "ok", <<>>, NoSoa)                                   \* NODATA without SOA
       [] k = "Ands"  -> M(k, "a", "ok", <<>>, TS)                                      \* NODATA with SOA
